@@ -371,6 +371,98 @@ theorem diversifyCsr_false_mem (eps : P) (dist : Int → Int → P) (draw : Nat 
     · exact List.mem_cons_of_mem _ h
     · simp at h
 
+/-! ## every draw stream: a removed position has a retained occluder visited earlier -/
+
+theorem scanCsr_false_occ (eps : P) (dist : Int → Int → P) (draw : Nat → Bool) (nbr : Nat → Int)
+    (len : Nat → P) (ret : Nat → Bool) (j : Nat) (pre : List Nat) (c : Nat)
+    (h : (scanCsr eps dist draw nbr len ret j pre c).1 = false) :
+    ∃ l ∈ pre, ret l = true ∧ eps < len l ∧ dist (nbr j) (nbr l) < len j := by
+  induction pre generalizing c with
+  | nil => simp [scanCsr] at h
+  | cons l pre ih =>
+    unfold scanCsr at h
+    by_cases hr : ret l = true
+    · by_cases ho : eps < len l ∧ dist (nbr j) (nbr l) < len j
+      · exact ⟨l, List.mem_cons_self, hr, ho⟩
+      · simp only [hr, ho, ↓reduceIte] at h
+        obtain ⟨x, hx, hx2⟩ := ih c h
+        exact ⟨x, List.mem_cons_of_mem _ hx, hx2⟩
+    · simp only [hr, Bool.false_eq_true, ↓reduceIte] at h
+      obtain ⟨x, hx, hx2⟩ := ih c h
+      exact ⟨x, List.mem_cons_of_mem _ hx, hx2⟩
+
+theorem csrLoop_false_occ (eps : P) (dist : Int → Int → P) (draw : Nat → Bool) (nbr : Nat → Int)
+    (len : Nat → P) (pre rest : List Nat) (ret : Nat → Bool) (c : Nat)
+    (hnd : (pre ++ rest).Nodup) (htrue : ∀ x ∈ rest, ret x = true)
+    (a : List Nat) (j : Nat) (b : List Nat) (hsplit : rest = a ++ j :: b)
+    (h : csrLoop eps dist draw nbr len pre rest ret c j = false) :
+    ∃ l ∈ pre ++ a, csrLoop eps dist draw nbr len pre rest ret c l = true ∧
+        eps < len l ∧ dist (nbr j) (nbr l) < len j := by
+  induction rest generalizing pre ret c a with
+  | nil => simp at hsplit
+  | cons j0 rest ih =>
+    have hnd' : ((pre ++ [j0]) ++ rest).Nodup := by simpa using hnd
+    have hj0pre : j0 ∉ pre := by
+      intro h
+      exact (List.nodup_append.mp hnd).2.2 j0 h j0 List.mem_cons_self rfl
+    have hj0rest : j0 ∉ rest := (List.nodup_cons.mp (List.nodup_append.mp hnd).2.1).1
+    rw [csrLoop] at h ⊢
+    cases a with
+    | nil =>
+      simp only [List.nil_append, List.cons.injEq] at hsplit
+      obtain ⟨rfl, rfl⟩ := hsplit
+      rw [csrLoop_frame _ _ _ _ _ _ _ _ _ _ hj0rest] at h
+      by_cases hr : (scanCsr eps dist draw nbr len ret j0 pre c).1 = true
+      · simp only [hr, ↓reduceIte, htrue j0 List.mem_cons_self] at h
+        cases h
+      · obtain ⟨l, hl, h1, h2⟩ := scanCsr_false_occ eps dist draw nbr len ret j0 pre c (by simpa using hr)
+        refine ⟨l, by simpa using hl, ?_, h2⟩
+        have hlrest : l ∉ rest := by
+          intro h
+          exact (List.nodup_append.mp hnd).2.2 l hl l (List.mem_cons_of_mem _ h) rfl
+        rw [csrLoop_frame _ _ _ _ _ _ _ _ _ _ hlrest]
+        have : l ≠ j0 := fun h => hj0pre (h ▸ hl)
+        simp [hr, this, h1]
+    | cons a0 a' =>
+      simp only [List.cons_append, List.cons.injEq] at hsplit
+      obtain ⟨rfl, hrest⟩ := hsplit
+      have htrue' : ∀ x ∈ rest,
+          (if (scanCsr eps dist draw nbr len ret j0 pre c).1 = true then ret
+            else fun x => if x = j0 then false else ret x) x = true := by
+        intro x hx
+        have hne : x ≠ j0 := fun h => hj0rest (h ▸ hx)
+        split
+        · exact htrue x (List.mem_cons_of_mem _ hx)
+        · simp [hne, htrue x (List.mem_cons_of_mem _ hx)]
+      have := ih (pre ++ [j0]) _ (scanCsr eps dist draw nbr len ret j0 pre c).2 hnd' htrue' a' hrest h
+      simpa using this
+
+/-- **every draw stream**: a position that is not retained is occluded by a *retained* position
+visited before it (the converse needs the draw to say "prune": `diversifyCsr_rule`) -/
+theorem diversifyCsr_false_occ (eps : P) (dist : Int → Int → P) (draw : Nat → Bool) (nbr : Nat → Int)
+    (len : Nat → P) (order : List Nat) (hnd : order.Nodup) (pre : List Nat) (j : Nat) (post : List Nat)
+    (hsplit : order = pre ++ j :: post)
+    (h : diversifyCsr eps dist draw nbr len order j = false) :
+    ∃ l ∈ pre, diversifyCsr eps dist draw nbr len order l = true ∧
+        eps < len l ∧ dist (nbr j) (nbr l) < len j := by
+  cases order with
+  | nil => simp at hsplit
+  | cons o rest =>
+    have hor : o ∉ rest := (List.nodup_cons.mp hnd).1
+    simp only [diversifyCsr] at h ⊢
+    cases pre with
+    | nil =>
+      simp only [List.nil_append, List.cons.injEq] at hsplit
+      obtain ⟨rfl, rfl⟩ := hsplit
+      rw [csrLoop_frame _ _ _ _ _ _ _ _ _ _ hor] at h
+      cases h
+    | cons p pre' =>
+      simp only [List.cons_append, List.cons.injEq] at hsplit
+      obtain ⟨rfl, hrest⟩ := hsplit
+      have := csrLoop_false_occ eps dist draw nbr len [o] rest (fun _ => true) 0 (by simpa using hnd)
+        (by simp) pre' j post hrest h
+      simpa using this
+
 /-! ## uniqueness of the rule, idempotence -/
 
 theorem rule_unique_aux (eps : P) (dist : Int → Int → P) (nbr : Nat → Int) (len : Nat → P)
@@ -737,10 +829,10 @@ theorem diversifyList_mem (eps : P) (dist : Int → Int → P) (draw : Nat → B
     · exact List.mem_cons_of_mem _ h
 
 /-- an edge of the first CSR form comes from a stored entry of the row, with the protected length -/
-theorem forwardRow_mem (zero eps top : P) (dist : Int → Int → P) (row : List (Ent P)) (e : Ent P)
-    (he : e ∈ forwardRow zero eps top dist row) :
+theorem forwardRowD_mem (zero eps top : P) (dist : Int → Int → P) (draw : Nat → Bool)
+    (row : List (Ent P)) (e : Ent P) (he : e ∈ forwardRowD zero eps top dist draw row) :
     e.1 ≠ -1 ∧ ∃ d, (e.1, d) ∈ row ∧ e.2 = protect zero eps d := by
-  unfold forwardRow elimZeros at he
+  unfold forwardRowD elimZeros at he
   simp only [List.mem_filter, List.mem_map] at he
   obtain ⟨⟨x, ⟨y, hy, rfl⟩, hx⟩, hz⟩ := he
   by_cases h1 : y.1 = -1
@@ -756,9 +848,15 @@ theorem forwardRow_mem (zero eps top : P) (dist : Int → Int → P) (row : List
     · have := (List.mem_replicate.mp hy).2
       exact absurd (by rw [this]) h1
 
-theorem secondRow_mem (zero eps : P) (dist : Int → Int → P) (argsort : List P → List Nat)
-    (row : List (Ent P)) (e : Ent P) (he : e ∈ secondRow zero eps dist argsort row) : e ∈ row := by
-  unfold secondRow elimZeros at he
+theorem forwardRow_mem (zero eps top : P) (dist : Int → Int → P) (row : List (Ent P)) (e : Ent P)
+    (he : e ∈ forwardRow zero eps top dist row) :
+    e.1 ≠ -1 ∧ ∃ d, (e.1, d) ∈ row ∧ e.2 = protect zero eps d :=
+  forwardRowD_mem zero eps top dist _ row e he
+
+theorem secondRowD_mem (zero eps : P) (dist : Int → Int → P) (argsort : List P → List Nat)
+    (draw : Nat → Bool) (row : List (Ent P)) (e : Ent P)
+    (he : e ∈ secondRowD zero eps dist argsort draw row) : e ∈ row := by
+  unfold secondRowD elimZeros at he
   simp only [List.mem_filter, List.mem_map] at he
   obtain ⟨⟨x, hx, hxe⟩, hz⟩ := he
   split at hxe
@@ -767,6 +865,10 @@ theorem secondRow_mem (zero eps : P) (dist : Int → Int → P) (argsort : List 
     rw [h]; exact List.getElem_mem _
   · subst hxe
     simp [isZero_zero] at hz
+
+theorem secondRow_mem (zero eps : P) (dist : Int → Int → P) (argsort : List P → List Nat)
+    (row : List (Ent P)) (e : Ent P) (he : e ∈ secondRow zero eps dist argsort row) : e ∈ row :=
+  secondRowD_mem zero eps dist argsort _ row e he
 
 omit [LinearOrder P] in
 theorem revRow_mem (n : Nat) (A : Graph P) (v : Nat) (e : Ent P) :
@@ -817,6 +919,34 @@ theorem unionRow_mem (zero : P) (n : Nat) (a b : List (Ent P)) (e : Ent P) (he :
 /-- point `u` lists `v` in the neighbour graph -/
 def Lists (N : List (List (Ent P))) (u : Nat) (v : Int) : Prop := ∃ d, (v, d) ∈ N.getD u []
 
+theorem fwdRowsD_row (zero eps top : P) (dist : Int → Int → P) (N : List (List (Ent P)))
+    (draw1 : Nat → Nat → Bool) (u : Nat) :
+    (fwdRowsD zero eps top dist N draw1).row u =
+      if u < N.length then forwardRowD zero eps top dist (draw1 u) (N.getD u []) else [] := row_tab _ _ _
+
+theorem sndRowsD_row (zero eps top : P) (dist : Int → Int → P) (argsort : List P → List Nat)
+    (N : List (List (Ent P))) (draw1 draw2 : Nat → Nat → Bool) (u : Nat) :
+    (sndRowsD zero eps top dist argsort N draw1 draw2).row u =
+      if u < N.length then
+        secondRowD zero eps dist argsort (draw2 u) ((fwdRowsD zero eps top dist N draw1).row u)
+      else [] :=
+  row_tab _ _ _
+
+theorem uniRowsD_row (zero eps top : P) (dist : Int → Int → P) (argsort : List P → List Nat)
+    (N : List (List (Ent P))) (draw1 draw2 : Nat → Nat → Bool) (u : Nat) :
+    (uniRowsD zero eps top dist argsort N draw1 draw2).row u =
+      if u < N.length then
+        dropDiag u (unionRow zero N.length ((sndRowsD zero eps top dist argsort N draw1 draw2).row u)
+          (revRow N.length (sndRowsD zero eps top dist argsort N draw1 draw2) u))
+      else [] := row_tab _ _ _
+
+theorem finalRowsD_row (zero eps top : P) (dist : Int → Int → P) (argsort : List P → List Nat) (m : Nat)
+    (N : List (List (Ent P))) (draw1 draw2 : Nat → Nat → Bool) (u : Nat) :
+    (finalRowsD zero eps top dist argsort m N draw1 draw2).row u =
+      if u < N.length then
+        elimZeros zero (degreePrune zero m ((uniRowsD zero eps top dist argsort N draw1 draw2).row u))
+      else [] := row_tab _ _ _
+
 theorem fwdRows_row (zero eps top : P) (dist : Int → Int → P) (N : List (List (Ent P))) (u : Nat) :
     (fwdRows zero eps top dist N).row u =
       if u < N.length then forwardRow zero eps top dist (N.getD u []) else [] := row_tab _ _ _
@@ -842,24 +972,29 @@ theorem finalRows_row (zero eps top : P) (dist : Int → Int → P) (argsort : L
         elimZeros zero (degreePrune zero m ((uniRows zero eps top dist argsort N).row u))
       else [] := row_tab _ _ _
 
-theorem sndRows_lists (zero eps top : P) (dist : Int → Int → P) (argsort : List P → List Nat)
-    (N : List (List (Ent P))) (u : Nat) (e : Ent P)
-    (he : e ∈ (sndRows zero eps top dist argsort N).row u) : u < N.length ∧ Lists N u e.1 := by
-  rw [sndRows_row] at he
+theorem sndRowsD_lists (zero eps top : P) (dist : Int → Int → P) (argsort : List P → List Nat)
+    (N : List (List (Ent P))) (draw1 draw2 : Nat → Nat → Bool) (u : Nat) (e : Ent P)
+    (he : e ∈ (sndRowsD zero eps top dist argsort N draw1 draw2).row u) : u < N.length ∧ Lists N u e.1 := by
+  rw [sndRowsD_row] at he
   split at he
   · rename_i hu
-    have h1 := secondRow_mem _ _ _ _ _ _ he
-    rw [fwdRows_row] at h1
+    have h1 := secondRowD_mem _ _ _ _ _ _ _ he
+    rw [fwdRowsD_row] at h1
     simp only [hu, ↓reduceIte] at h1
-    obtain ⟨_, d, hd, _⟩ := forwardRow_mem _ _ _ _ _ _ h1
+    obtain ⟨_, d, hd, _⟩ := forwardRowD_mem _ _ _ _ _ _ _ h1
     exact ⟨hu, d, hd⟩
   · simp at he
 
-theorem searchGraph_mem (zero eps top : P) (dist : Int → Int → P) (argsort : List P → List Nat) (m : Nat)
-    (N : List (List (Ent P))) (u : Nat) (v : Int) :
-    (u, v) ∈ searchGraph zero eps top dist argsort m N ↔
-      u < N.length ∧ ∃ w, (v, w) ∈ (finalRows zero eps top dist argsort m N).row u := by
-  unfold searchGraph
+theorem sndRows_lists (zero eps top : P) (dist : Int → Int → P) (argsort : List P → List Nat)
+    (N : List (List (Ent P))) (u : Nat) (e : Ent P)
+    (he : e ∈ (sndRows zero eps top dist argsort N).row u) : u < N.length ∧ Lists N u e.1 :=
+  sndRowsD_lists zero eps top dist argsort N _ _ u e he
+
+theorem searchGraphD_mem (zero eps top : P) (dist : Int → Int → P) (argsort : List P → List Nat) (m : Nat)
+    (N : List (List (Ent P))) (draw1 draw2 : Nat → Nat → Bool) (u : Nat) (v : Int) :
+    (u, v) ∈ searchGraphD zero eps top dist argsort m N draw1 draw2 ↔
+      u < N.length ∧ ∃ w, (v, w) ∈ (finalRowsD zero eps top dist argsort m N draw1 draw2).row u := by
+  unfold searchGraphD
   simp only [List.mem_flatMap, List.mem_range, List.mem_map, Prod.mk.injEq]
   constructor
   · rintro ⟨u', hu', e, he, rfl, rfl⟩
@@ -867,22 +1002,34 @@ theorem searchGraph_mem (zero eps top : P) (dist : Int → Int → P) (argsort :
   · rintro ⟨hu, w, hw⟩
     exact ⟨u, hu, (v, w), hw, rfl, rfl⟩
 
+theorem searchGraph_mem (zero eps top : P) (dist : Int → Int → P) (argsort : List P → List Nat) (m : Nat)
+    (N : List (List (Ent P))) (u : Nat) (v : Int) :
+    (u, v) ∈ searchGraph zero eps top dist argsort m N ↔
+      u < N.length ∧ ∃ w, (v, w) ∈ (finalRows zero eps top dist argsort m N).row u :=
+  searchGraphD_mem zero eps top dist argsort m N _ _ u v
+
 /-- every edge of the final graph is an entry of the union row (before pruning) -/
-theorem finalRows_sub_uni (zero eps top : P) (dist : Int → Int → P) (argsort : List P → List Nat) (m : Nat)
-    (N : List (List (Ent P))) (u : Nat) (e : Ent P)
-    (he : e ∈ (finalRows zero eps top dist argsort m N).row u) :
-    e ∈ (uniRows zero eps top dist argsort N).row u := by
-  rw [finalRows_row] at he
+theorem finalRowsD_sub_uni (zero eps top : P) (dist : Int → Int → P) (argsort : List P → List Nat) (m : Nat)
+    (N : List (List (Ent P))) (draw1 draw2 : Nat → Nat → Bool) (u : Nat) (e : Ent P)
+    (he : e ∈ (finalRowsD zero eps top dist argsort m N draw1 draw2).row u) :
+    e ∈ (uniRowsD zero eps top dist argsort N draw1 draw2).row u := by
+  rw [finalRowsD_row] at he
   split at he
   · exact (prune_sublist zero m _).subset he
   · simp at he
 
-theorem uniRows_spec (zero eps top : P) (dist : Int → Int → P) (argsort : List P → List Nat)
+theorem finalRows_sub_uni (zero eps top : P) (dist : Int → Int → P) (argsort : List P → List Nat) (m : Nat)
     (N : List (List (Ent P))) (u : Nat) (e : Ent P)
-    (he : e ∈ (uniRows zero eps top dist argsort N).row u) :
+    (he : e ∈ (finalRows zero eps top dist argsort m N).row u) :
+    e ∈ (uniRows zero eps top dist argsort N).row u :=
+  finalRowsD_sub_uni zero eps top dist argsort m N _ _ u e he
+
+theorem uniRowsD_spec (zero eps top : P) (dist : Int → Int → P) (argsort : List P → List Nat)
+    (N : List (List (Ent P))) (draw1 draw2 : Nat → Nat → Bool) (u : Nat) (e : Ent P)
+    (he : e ∈ (uniRowsD zero eps top dist argsort N draw1 draw2).row u) :
     u < N.length ∧ e.1 ≠ (u : Int) ∧ ∃ v : Nat, v < N.length ∧ e.1 = (v : Int) ∧
       (Lists N u e.1 ∨ Lists N v (u : Int)) := by
-  rw [uniRows_row] at he
+  rw [uniRowsD_row] at he
   split at he
   · rename_i hu
     unfold dropDiag at he
@@ -891,13 +1038,20 @@ theorem uniRows_spec (zero eps top : P) (dist : Int → Int → P) (argsort : Li
     obtain ⟨⟨v, hv, hev⟩, _, hor⟩ := unionRow_mem _ _ _ _ _ hmem
     refine ⟨hu, hne, v, hv, hev, ?_⟩
     rcases hor with ⟨w, hw⟩ | ⟨w, hw⟩
-    · exact Or.inl (sndRows_lists _ _ _ _ _ _ _ _ hw).2
+    · exact Or.inl (sndRowsD_lists _ _ _ _ _ _ _ _ _ _ hw).2
     · obtain ⟨u', hu', h1, h2⟩ := (revRow_mem _ _ _ _).mp hw
       simp only at h1 h2
       have : u' = v := by omega
       subst this
-      exact Or.inr (sndRows_lists _ _ _ _ _ _ _ _ h2).2
+      exact Or.inr (sndRowsD_lists _ _ _ _ _ _ _ _ _ _ h2).2
   · simp at he
+
+theorem uniRows_spec (zero eps top : P) (dist : Int → Int → P) (argsort : List P → List Nat)
+    (N : List (List (Ent P))) (u : Nat) (e : Ent P)
+    (he : e ∈ (uniRows zero eps top dist argsort N).row u) :
+    u < N.length ∧ e.1 ≠ (u : Int) ∧ ∃ v : Nat, v < N.length ∧ e.1 = (v : Int) ∧
+      (Lists N u e.1 ∨ Lists N v (u : Int)) :=
+  uniRowsD_spec zero eps top dist argsort N _ _ u e he
 
 /-! ## the nearest neighbour through the pipeline -/
 
@@ -960,10 +1114,11 @@ theorem protect_pos (zero eps x : P) (hze : zero < eps) : zero < protect zero ep
 theorem isZero_of_pos (zero x : P) (h : zero < x) : isZero zero x = false := by
   simp [isZero, not_le.mpr h]
 
-theorem forwardRow_keeps (zero eps top : P) (hze : zero < eps) (dist : Int → Int → P)
+theorem forwardRowD_keeps (zero eps top : P) (hze : zero < eps) (dist : Int → Int → P)
+    (draw : Nat → Bool)
     (pre post : List (Ent P)) (x : Ent P) (hx : 0 ≤ x.1) (hpre : ∀ e ∈ pre, 0 ≤ e.1 ∧ e.2 ≤ eps) :
-    (x.1, protect zero eps x.2) ∈ forwardRow zero eps top dist (pre ++ x :: post) := by
-  unfold forwardRow elimZeros
+    (x.1, protect zero eps x.2) ∈ forwardRowD zero eps top dist draw (pre ++ x :: post) := by
+  unfold forwardRowD elimZeros
   simp only [List.mem_filter, List.mem_map]
   refine ⟨⟨(x.1, protect zero eps x.2), ⟨x, ?_, rfl⟩, ?_⟩, ?_⟩
   · unfold diversifyRow
@@ -972,22 +1127,37 @@ theorem forwardRow_keeps (zero eps top : P) (hze : zero < eps) (dist : Int → I
     simp [this]
   · simp [isZero_of_pos zero _ (protect_pos zero eps x.2 hze)]
 
-theorem forwardRow_pos (zero eps top : P) (hze : zero < eps) (dist : Int → Int → P) (row : List (Ent P))
-    (e : Ent P) (he : e ∈ forwardRow zero eps top dist row) : zero < e.2 := by
-  obtain ⟨_, d, _, h⟩ := forwardRow_mem zero eps top dist row e he
+theorem forwardRow_keeps (zero eps top : P) (hze : zero < eps) (dist : Int → Int → P)
+    (pre post : List (Ent P)) (x : Ent P) (hx : 0 ≤ x.1) (hpre : ∀ e ∈ pre, 0 ≤ e.1 ∧ e.2 ≤ eps) :
+    (x.1, protect zero eps x.2) ∈ forwardRow zero eps top dist (pre ++ x :: post) :=
+  forwardRowD_keeps zero eps top hze dist _ pre post x hx hpre
+
+theorem forwardRowD_pos (zero eps top : P) (hze : zero < eps) (dist : Int → Int → P) (draw : Nat → Bool)
+    (row : List (Ent P)) (e : Ent P) (he : e ∈ forwardRowD zero eps top dist draw row) : zero < e.2 := by
+  obtain ⟨_, d, _, h⟩ := forwardRowD_mem zero eps top dist draw row e he
   rw [h]; exact protect_pos zero eps d hze
+
+theorem forwardRow_pos (zero eps top : P) (hze : zero < eps) (dist : Int → Int → P) (row : List (Ent P))
+    (e : Ent P) (he : e ∈ forwardRow zero eps top dist row) : zero < e.2 :=
+  forwardRowD_pos zero eps top hze dist _ row e he
+
+theorem sndRowsD_pos (zero eps top : P) (hze : zero < eps) (dist : Int → Int → P)
+    (argsort : List P → List Nat) (N : List (List (Ent P))) (draw1 draw2 : Nat → Nat → Bool)
+    (u : Nat) (e : Ent P)
+    (he : e ∈ (sndRowsD zero eps top dist argsort N draw1 draw2).row u) : zero < e.2 := by
+  rw [sndRowsD_row] at he
+  split at he
+  · rename_i hu
+    have h1 := secondRowD_mem _ _ _ _ _ _ _ he
+    rw [fwdRowsD_row] at h1
+    simp only [hu, ↓reduceIte] at h1
+    exact forwardRowD_pos zero eps top hze dist _ _ e h1
+  · simp at he
 
 theorem sndRows_pos (zero eps top : P) (hze : zero < eps) (dist : Int → Int → P)
     (argsort : List P → List Nat) (N : List (List (Ent P))) (u : Nat) (e : Ent P)
-    (he : e ∈ (sndRows zero eps top dist argsort N).row u) : zero < e.2 := by
-  rw [sndRows_row] at he
-  split at he
-  · rename_i hu
-    have h1 := secondRow_mem _ _ _ _ _ _ he
-    rw [fwdRows_row] at h1
-    simp only [hu, ↓reduceIte] at h1
-    exact forwardRow_pos zero eps top hze dist _ e h1
-  · simp at he
+    (he : e ∈ (sndRows zero eps top dist argsort N).row u) : zero < e.2 :=
+  sndRowsD_pos zero eps top hze dist argsort N _ _ u e he
 
 omit [LinearOrder P] in
 theorem filter_sublist_filter {α : Type} (p q : α → Bool) (l : List α) (h : ∀ x ∈ l, p x = true → q x = true) :
@@ -1181,10 +1351,10 @@ theorem pairwise_or {α : Type} (R : α → α → Prop) (l : List α) (h : l.Pa
       · exact ih hp.2 ha hb
 
 /-- an edge of the first CSR form is an entry the forward pass appended to `new_*` -/
-theorem forwardRow_mem_new (zero eps top : P) (dist : Int → Int → P) (row : List (Ent P)) (e : Ent P)
-    (he : e ∈ forwardRow zero eps top dist row) :
-    ∃ y ∈ (diversifyList eps dist (fun _ => true) row).1, e.1 = y.1 ∧ e.2 = protect zero eps y.2 := by
-  unfold forwardRow elimZeros at he
+theorem forwardRowD_mem_new (zero eps top : P) (dist : Int → Int → P) (draw : Nat → Bool)
+    (row : List (Ent P)) (e : Ent P) (he : e ∈ forwardRowD zero eps top dist draw row) :
+    ∃ y ∈ (diversifyList eps dist draw row).1, e.1 = y.1 ∧ e.2 = protect zero eps y.2 := by
+  unfold forwardRowD elimZeros at he
   simp only [List.mem_filter, List.mem_map] at he
   obtain ⟨⟨x, ⟨y, hy, rfl⟩, hx⟩, hz⟩ := he
   by_cases h1 : y.1 = -1
@@ -1199,6 +1369,11 @@ theorem forwardRow_mem_new (zero eps top : P) (dist : Int → Int → P) (row : 
     · have := (List.mem_replicate.mp hy).2
       exact absurd (by rw [this]) h1
 
+theorem forwardRow_mem_new (zero eps top : P) (dist : Int → Int → P) (row : List (Ent P)) (e : Ent P)
+    (he : e ∈ forwardRow zero eps top dist row) :
+    ∃ y ∈ (diversifyList eps dist (fun _ => true) row).1, e.1 = y.1 ∧ e.2 = protect zero eps y.2 :=
+  forwardRowD_mem_new zero eps top dist _ row e he
+
 theorem protect_gt (zero eps x : P) (h : eps < protect zero eps x) : protect zero eps x = x ∧ eps < x := by
   unfold protect at h ⊢
   split
@@ -1206,46 +1381,59 @@ theorem protect_gt (zero eps x : P) (h : eps < protect zero eps x) : protect zer
   · rename_i hx; simp only [hx, ↓reduceIte] at h; exact ⟨rfl, h⟩
 
 /-- an entry at a position whose `retained` flag survives is an entry of the second-pass row -/
-theorem secondRow_of_keep (zero eps : P) (dist : Int → Int → P) (argsort : List P → List Nat)
+theorem secondRowD_of_keep (zero eps : P) (dist : Int → Int → P) (argsort : List P → List Nat)
+    (draw : Nat → Bool)
     (row : List (Ent P)) (j : Nat) (e : Ent P) (hj : row[j]? = some e) (hnz : isZero zero e.2 = false)
-    (hk : diversifyCsr eps dist (fun _ => true) (nbrOf row) (lenOf eps row)
+    (hk : diversifyCsr eps dist draw (nbrOf row) (lenOf eps row)
       (argsort (row.map (·.2))) j = true) :
-    e ∈ secondRow zero eps dist argsort row := by
-  unfold secondRow elimZeros
+    e ∈ secondRowD zero eps dist argsort draw row := by
+  unfold secondRowD elimZeros
   simp only [List.mem_filter, List.mem_map]
   refine ⟨⟨(e, j), ?_, by simp [hk]⟩, by simp [hnz]⟩
   exact List.mem_zipIdx_iff_getElem?.mpr hj
 
-/-- **second pass**: under the invariants of a real neighbour row (ascending lengths after the
-entry, symmetric metric) and for every `argsort` that returns an ascending permutation, the entry
-preceded only by entries of length `≤ eps` survives the second greedy pass as well -/
-theorem secondRow_keeps (zero eps top : P) (hze : zero < eps) (dist : Int → Int → P)
-    (hsym : ∀ a b, dist a b = dist b a) (argsort : List P → List Nat)
+theorem secondRow_of_keep (zero eps : P) (dist : Int → Int → P) (argsort : List P → List Nat)
+    (row : List (Ent P)) (j : Nat) (e : Ent P) (hj : row[j]? = some e) (hnz : isZero zero e.2 = false)
+    (hk : diversifyCsr eps dist (fun _ => true) (nbrOf row) (lenOf eps row)
+      (argsort (row.map (·.2))) j = true) :
+    e ∈ secondRow zero eps dist argsort row :=
+  secondRowD_of_keep zero eps dist argsort _ row j e hj hnz hk
+
+/-- **second pass, every draw stream of either pass**: under the invariants of a real neighbour
+row (`hpre`: only entries of length `≤ eps` before `x`; `hpost`: nothing shorter after it) and for
+every `argsort` that returns an ascending arrangement, the entry `x` survives the second greedy pass
+as well, provided no entry stored after `x`, *tied* with it and appended by the forward pass is
+strictly closer to `x`'s point than the row's own point is (`hocc`; the test is the one the second
+kernel evaluates, `dist(data[x], data[y]) < len x`, with `x` as candidate; only needed when
+`eps < len x`).
+Every other potential occluder is excluded by the order of the visit: it would have to be visited
+before `x` with a length `> eps`. -/
+theorem secondRowD_keeps (zero eps top : P) (hze : zero < eps) (dist : Int → Int → P)
+    (argsort : List P → List Nat)
     (hbound : ∀ lens, ∀ i ∈ argsort lens, i < lens.length) (hnd : ∀ lens, (argsort lens).Nodup)
     (hsorted : ∀ lens, (argsort lens).Pairwise
       (fun a b => ∀ p q, lens[a]? = some p → lens[b]? = some q → p ≤ q))
+    (draw1 draw2 : Nat → Bool)
     (pre post : List (Ent P)) (x : Ent P) (hx : 0 ≤ x.1) (hpre : ∀ e ∈ pre, 0 ≤ e.1 ∧ e.2 ≤ eps)
-    (hpost : ∀ e ∈ post, x.2 ≤ e.2) :
+    (hpost : ∀ e ∈ post, x.2 ≤ e.2)
+    (hocc : ∀ y ∈ (diversifyList eps dist draw1 (pre ++ x :: post)).1, y ∈ post → y ≠ x → y.2 = x.2 →
+      eps < x.2 → ¬ dist x.1 y.1 < x.2) :
     (x.1, protect zero eps x.2) ∈
-      secondRow zero eps dist argsort (forwardRow zero eps top dist (pre ++ x :: post)) := by
-  have hin := forwardRow_keeps zero eps top hze dist pre post x hx hpre
-  generalize hfrow : forwardRow zero eps top dist (pre ++ x :: post) = frow at hin ⊢
-  have hxnew := diversifyList_keeps eps dist (fun _ => true) pre post x hx hpre
-  have hpw := diversifyList_pairwise eps dist (pre ++ x :: post)
+      secondRowD zero eps dist argsort draw2 (forwardRowD zero eps top dist draw1 (pre ++ x :: post)) := by
+  have hin := forwardRowD_keeps zero eps top hze dist draw1 pre post x hx hpre
+  generalize hfrow : forwardRowD zero eps top dist draw1 (pre ++ x :: post) = frow at hin ⊢
   obtain ⟨jv, hjvlt, hget⟩ := List.getElem_of_mem hin
   have hget? : frow[jv]? = some (x.1, protect zero eps x.2) := by simp [hjvlt, hget]
   have hnzx : isZero zero (protect zero eps x.2) = false := isZero_of_pos zero _ (protect_pos zero eps x.2 hze)
-  by_cases hk : diversifyCsr eps dist (fun _ => true) (nbrOf frow) (lenOf eps frow)
+  by_cases hk : diversifyCsr eps dist draw2 (nbrOf frow) (lenOf eps frow)
       (argsort (frow.map (·.2))) jv = true
-  · exact secondRow_of_keep zero eps dist argsort frow jv _ hget? hnzx hk
-  · have hk' : diversifyCsr eps dist (fun _ => true) (nbrOf frow) (lenOf eps frow)
+  · exact secondRowD_of_keep zero eps dist argsort draw2 frow jv _ hget? hnzx hk
+  · have hk' : diversifyCsr eps dist draw2 (nbrOf frow) (lenOf eps frow)
         (argsort (frow.map (·.2))) jv = false := by simpa using hk
     have hmem := diversifyCsr_false_mem _ _ _ _ _ _ _ hk'
     obtain ⟨opre, opost, hsplit⟩ := List.append_of_mem hmem
-    have hrule := diversifyCsr_rule eps dist (nbrOf frow) (lenOf eps frow) _ (hnd (frow.map (·.2)))
-      opre jv opost hsplit
-    have hex := Classical.not_not.mp (fun h => hk (hrule.mpr h))
-    obtain ⟨l, hl, hkl, heps, hdist⟩ := hex
+    obtain ⟨l, hl, hkl, heps, hdist⟩ := diversifyCsr_false_occ eps dist draw2 (nbrOf frow) (lenOf eps frow) _
+      (hnd (frow.map (·.2))) opre jv opost hsplit hk'
     have hlord : l ∈ argsort (frow.map (·.2)) := by rw [hsplit]; simp [hl]
     have hllt : l < frow.length := by simpa using hbound _ l hlord
     have hgl? : frow[l]? = some frow[l] := by simp [hllt]
@@ -1256,9 +1444,9 @@ theorem secondRow_keeps (zero eps top : P) (hze : zero < eps) (dist : Int → In
     rw [hll] at heps
     rw [hnj, hnl, hlj] at hdist
     -- the entry at position `l` was appended by the forward pass
-    have hlmem : frow[l] ∈ forwardRow zero eps top dist (pre ++ x :: post) := by
+    have hlmem : frow[l] ∈ forwardRowD zero eps top dist draw1 (pre ++ x :: post) := by
       rw [hfrow]; exact List.getElem_mem _
-    obtain ⟨y, hynew, hy1, hy2⟩ := forwardRow_mem_new zero eps top dist _ _ hlmem
+    obtain ⟨y, hynew, hy1, hy2⟩ := forwardRowD_mem_new zero eps top dist draw1 _ _ hlmem
     rw [hy2] at heps
     obtain ⟨hpy, hepsy⟩ := protect_gt zero eps y.2 heps
     -- `l` is visited before `jv`, so its length is not larger
@@ -1276,19 +1464,273 @@ theorem secondRow_keeps (zero eps top : P) (hze : zero < eps) (dist : Int → In
     · -- the same entry, at an earlier visited position that is retained
       have : frow[l] = (x.1, protect zero eps x.2) := by
         rw [Prod.ext_iff]; simp only; rw [hy1, hy2, hyx]; exact ⟨rfl, rfl⟩
-      exact secondRow_of_keep zero eps dist argsort frow l _ (by rw [hgl?, this]) hnzx hkl
+      exact secondRowD_of_keep zero eps dist argsort draw2 frow l _ (by rw [hgl?, this]) hnzx hkl
     · exfalso
       have hyrow := diversifyList_mem eps dist _ _ y hynew
       rcases List.mem_append.mp hyrow with hy | hy
       · exact absurd hepsy (not_lt.mpr (hpre y hy).2)
       · rcases List.mem_cons.mp hy with hy | hy
         · exact hyx hy
-        · have hxy : x.2 = y.2 := le_antisymm (hpost y hy) hle
-          rcases pairwise_or _ _ hpw x y hxnew hynew (fun h => hyx h.symm) with h | h
-          · apply h
-            refine ⟨hepsx', ?_⟩
-            rw [hsym y.1 x.1, ← hxy]; exact hdist
-          · apply h
-            exact ⟨hepsy, hdist⟩
+        · exact hocc y hynew hy hyx (le_antisymm hle (hpost y hy)) hepsx' hdist
+
+/-- **second pass after a forward pass with probability 1** (any draw stream in the second pass):
+under a symmetric table a tied later entry that is closer to `x`'s point would have been occluded
+by `x` in the forward pass, so `hocc` of `secondRowD_keeps` holds by itself. -/
+theorem secondRowD_keeps_fwd1 (zero eps top : P) (hze : zero < eps) (dist : Int → Int → P)
+    (hsym : ∀ a b, dist a b = dist b a) (argsort : List P → List Nat)
+    (hbound : ∀ lens, ∀ i ∈ argsort lens, i < lens.length) (hnd : ∀ lens, (argsort lens).Nodup)
+    (hsorted : ∀ lens, (argsort lens).Pairwise
+      (fun a b => ∀ p q, lens[a]? = some p → lens[b]? = some q → p ≤ q))
+    (draw2 : Nat → Bool)
+    (pre post : List (Ent P)) (x : Ent P) (hx : 0 ≤ x.1) (hpre : ∀ e ∈ pre, 0 ≤ e.1 ∧ e.2 ≤ eps)
+    (hpost : ∀ e ∈ post, x.2 ≤ e.2) :
+    (x.1, protect zero eps x.2) ∈
+      secondRowD zero eps dist argsort draw2
+        (forwardRowD zero eps top dist (fun _ => true) (pre ++ x :: post)) := by
+  apply secondRowD_keeps zero eps top hze dist argsort hbound hnd hsorted (fun _ => true) draw2 pre post x
+    hx hpre hpost
+  intro y hynew _ hyx hyx2 hepsx hdist
+  have hxnew := diversifyList_keeps eps dist (fun _ => true) pre post x hx hpre
+  have hpw := diversifyList_pairwise eps dist (pre ++ x :: post)
+  rcases pairwise_or _ _ hpw x y hxnew hynew (fun h => hyx h.symm) with h | h
+  · exact h ⟨hepsx, by rw [hsym y.1 x.1, hyx2]; exact hdist⟩
+  · exact h ⟨by rw [hyx2]; exact hepsx, hdist⟩
+
+/-- `secondRowD_keeps_fwd1` for `diversify_prob = 1` in both passes -/
+theorem secondRow_keeps (zero eps top : P) (hze : zero < eps) (dist : Int → Int → P)
+    (hsym : ∀ a b, dist a b = dist b a) (argsort : List P → List Nat)
+    (hbound : ∀ lens, ∀ i ∈ argsort lens, i < lens.length) (hnd : ∀ lens, (argsort lens).Nodup)
+    (hsorted : ∀ lens, (argsort lens).Pairwise
+      (fun a b => ∀ p q, lens[a]? = some p → lens[b]? = some q → p ≤ q))
+    (pre post : List (Ent P)) (x : Ent P) (hx : 0 ≤ x.1) (hpre : ∀ e ∈ pre, 0 ≤ e.1 ∧ e.2 ≤ eps)
+    (hpost : ∀ e ∈ post, x.2 ≤ e.2) :
+    (x.1, protect zero eps x.2) ∈
+      secondRow zero eps dist argsort (forwardRow zero eps top dist (pre ++ x :: post)) :=
+  secondRowD_keeps_fwd1 zero eps top hze dist hsym argsort hbound hnd hsorted _ pre post x hx hpre hpost
+
+/-- **second pass with ties, every draw stream, every tie order**: without any hypothesis on the
+tied entries, *some* entry at the length of `x` — `x` itself or an entry stored after it with the
+same length — survives both passes: the first visited position longer than `eps` has no possible
+occluder, and it is `x` or tied with it. -/
+theorem secondRowD_keeps_tied (zero eps top : P) (hze : zero < eps) (dist : Int → Int → P)
+    (argsort : List P → List Nat)
+    (hbound : ∀ lens, ∀ i ∈ argsort lens, i < lens.length) (hnd : ∀ lens, (argsort lens).Nodup)
+    (hsorted : ∀ lens, (argsort lens).Pairwise
+      (fun a b => ∀ p q, lens[a]? = some p → lens[b]? = some q → p ≤ q))
+    (draw1 draw2 : Nat → Bool)
+    (pre post : List (Ent P)) (x : Ent P) (hx : 0 ≤ x.1) (hpre : ∀ e ∈ pre, 0 ≤ e.1 ∧ e.2 ≤ eps)
+    (hpost : ∀ e ∈ post, x.2 ≤ e.2) :
+    ∃ y, (y = x ∨ (y ∈ post ∧ y.2 = x.2)) ∧ (y.1, protect zero eps x.2) ∈
+      secondRowD zero eps dist argsort draw2 (forwardRowD zero eps top dist draw1 (pre ++ x :: post)) := by
+  have hin := forwardRowD_keeps zero eps top hze dist draw1 pre post x hx hpre
+  generalize hfrow : forwardRowD zero eps top dist draw1 (pre ++ x :: post) = frow at hin ⊢
+  obtain ⟨jv, hjvlt, hget⟩ := List.getElem_of_mem hin
+  have hget? : frow[jv]? = some (x.1, protect zero eps x.2) := by simp [hjvlt, hget]
+  have hnzx : isZero zero (protect zero eps x.2) = false := isZero_of_pos zero _ (protect_pos zero eps x.2 hze)
+  have hlj : lenOf eps frow jv = protect zero eps x.2 := by simp [lenOf, hget?]
+  by_cases hk : diversifyCsr eps dist draw2 (nbrOf frow) (lenOf eps frow)
+      (argsort (frow.map (·.2))) jv = true
+  · exact ⟨x, Or.inl rfl, secondRowD_of_keep zero eps dist argsort draw2 frow jv _ hget? hnzx hk⟩
+  · have hk' : diversifyCsr eps dist draw2 (nbrOf frow) (lenOf eps frow)
+        (argsort (frow.map (·.2))) jv = false := by simpa using hk
+    have hmem := diversifyCsr_false_mem _ _ _ _ _ _ _ hk'
+    have hs := hsorted (frow.map (·.2))
+    -- `x` is longer than `eps`: it has an occluder visited earlier
+    have hepsx : eps < protect zero eps x.2 := by
+      obtain ⟨opre, opost, hsplit⟩ := List.append_of_mem hmem
+      obtain ⟨l, hl, _, heps, _⟩ := diversifyCsr_false_occ eps dist draw2 (nbrOf frow) (lenOf eps frow) _
+        (hnd (frow.map (·.2))) opre jv opost hsplit hk'
+      have hlord : l ∈ argsort (frow.map (·.2)) := by rw [hsplit]; simp [hl]
+      have hllt : l < frow.length := by simpa using hbound _ l hlord
+      rw [hsplit] at hs
+      have := (List.pairwise_append.mp hs).2.2 l hl jv List.mem_cons_self
+      have hle : frow[l].2 ≤ protect zero eps x.2 := this _ _ (by simp [hllt]) (by simp [hget?])
+      have hll : lenOf eps frow l = frow[l].2 := by simp [lenOf, hllt]
+      rw [hll] at heps
+      exact lt_of_lt_of_le heps hle
+    obtain ⟨hpx, hepsx'⟩ := protect_gt zero eps x.2 hepsx
+    -- the first visited position longer than `eps`
+    have hfind : ∃ z, (argsort (frow.map (·.2))).find? (fun i => decide (eps < lenOf eps frow i)) = some z := by
+      cases hf : (argsort (frow.map (·.2))).find? (fun i => decide (eps < lenOf eps frow i)) with
+      | some z => exact ⟨z, rfl⟩
+      | none =>
+        rw [List.find?_eq_none] at hf
+        have := hf jv hmem
+        simp only [hlj, decide_eq_true_eq] at this
+        exact absurd hepsx this
+    obtain ⟨z, hz⟩ := hfind
+    obtain ⟨hpz, as, bs, hsplit, has⟩ := List.find?_eq_some_iff_append.mp hz
+    simp only [decide_eq_true_eq] at hpz
+    have hzord : z ∈ argsort (frow.map (·.2)) := by rw [hsplit]; simp
+    have hzlt : z < frow.length := by simpa using hbound _ z hzord
+    have hlz : lenOf eps frow z = frow[z].2 := by simp [lenOf, hzlt]
+    have hgz? : frow[z]? = some frow[z] := by simp [hzlt]
+    -- it is retained: an occluder would be an earlier visited position longer than `eps`
+    have hkz : diversifyCsr eps dist draw2 (nbrOf frow) (lenOf eps frow)
+        (argsort (frow.map (·.2))) z = true := by
+      by_cases hkz : diversifyCsr eps dist draw2 (nbrOf frow) (lenOf eps frow)
+          (argsort (frow.map (·.2))) z = true
+      · exact hkz
+      · exfalso
+        obtain ⟨l, hl, _, heps, _⟩ := diversifyCsr_false_occ eps dist draw2 (nbrOf frow) (lenOf eps frow) _
+          (hnd (frow.map (·.2))) as z bs hsplit (by simpa using hkz)
+        have := has l hl
+        simp only [Bool.not_eq_eq_eq_not, Bool.not_true, decide_eq_false_iff_not] at this
+        exact this heps
+    -- it is visited no later than `x`
+    have hle : frow[z].2 ≤ protect zero eps x.2 := by
+      rw [hsplit] at hmem hs
+      rcases List.mem_append.mp hmem with h | h
+      · have := has jv h
+        simp only [hlj, Bool.not_eq_eq_eq_not, Bool.not_true, decide_eq_false_iff_not] at this
+        exact absurd hepsx this
+      · rcases List.mem_cons.mp h with h | h
+        · subst h
+          have : frow[jv] = (x.1, protect zero eps x.2) := hget
+          rw [this]
+        · have := (List.pairwise_cons.mp (List.pairwise_append.mp hs).2.1).1 jv h
+          exact this _ _ (by simp [hzlt]) (by simp [hget?])
+    rw [hlz] at hpz
+    have hzmem : frow[z] ∈ forwardRowD zero eps top dist draw1 (pre ++ x :: post) := by
+      rw [hfrow]; exact List.getElem_mem _
+    obtain ⟨_, d', hd', hd2⟩ := forwardRowD_mem zero eps top dist draw1 _ _ hzmem
+    rw [hd2] at hpz
+    obtain ⟨hpd, hepsd⟩ := protect_gt zero eps d' hpz
+    rw [hd2, hpd, hpx] at hle
+    have hnz : isZero zero frow[z].2 = false := by
+      rw [hd2]; exact isZero_of_pos zero _ (protect_pos zero eps d' hze)
+    have hkeep := secondRowD_of_keep zero eps dist argsort draw2 frow z _ hgz? hnz hkz
+    rcases List.mem_append.mp hd' with hy | hy
+    · exact absurd hepsd (not_lt.mpr (hpre _ hy).2)
+    · rcases List.mem_cons.mp hy with hy | hy
+      · refine ⟨x, Or.inl rfl, ?_⟩
+        have h1 : frow[z].1 = x.1 := by rw [← hy]
+        have h2 : d' = x.2 := by rw [← hy]
+        have : frow[z] = (x.1, protect zero eps x.2) := by
+          rw [Prod.ext_iff]; exact ⟨h1, by simp only; rw [hd2, h2]⟩
+        rw [← this]; exact hkeep
+      · have hxd : d' = x.2 := le_antisymm hle (hpost _ hy)
+        refine ⟨(frow[z].1, d'), Or.inr ⟨hy, hxd⟩, ?_⟩
+        have : frow[z] = (frow[z].1, protect zero eps x.2) := by
+          rw [Prod.ext_iff]; exact ⟨rfl, by simp only; rw [hd2, hxd]⟩
+        rw [← this]; exact hkeep
+
+/-! ## from the second pass to the final graph (no generator involved) -/
+
+/-- symmetrisation, diagonal removal, degree pruning and binarisation of an entry `(v, w)`, `v ≠ u`,
+that row `u` holds after the second pass: it stays in the candidate row with some length `w'`, the
+final row holds a shortest entry of the candidate row, and `(u, v)` itself is an edge unless at
+least `m` kept edges are strictly shorter than `w'` -/
+theorem nearest_of_snd (zero eps top : P) (hze : zero < eps) (dist : Int → Int → P)
+    (argsort : List P → List Nat) (m : Nat) (hm : 0 < m) (N : List (List (Ent P)))
+    (draw1 draw2 : Nat → Nat → Bool) (u v : Nat) (w : P)
+    (hu : u < N.length) (hv : v < N.length) (hne : v ≠ u)
+    (hsnd : ((v : Int), w) ∈ (sndRowsD zero eps top dist argsort N draw1 draw2).row u) :
+    ∃ w', ((v : Int), w') ∈ (uniRowsD zero eps top dist argsort N draw1 draw2).row u ∧
+      (∃ e ∈ (finalRowsD zero eps top dist argsort m N draw1 draw2).row u,
+          ∀ e' ∈ (uniRowsD zero eps top dist argsort N draw1 draw2).row u, e.2 ≤ e'.2) ∧
+      ((u, (v : Int)) ∈ searchGraphD zero eps top dist argsort m N draw1 draw2 ∨
+        m ≤ (((finalRowsD zero eps top dist argsort m N draw1 draw2).row u).filter
+          (fun e => decide (e.2 < w'))).length) := by
+  obtain ⟨w0, w', _, _, hw'⟩ := unionRow_keeps zero N.length _
+    (revRow N.length (sndRowsD zero eps top dist argsort N draw1 draw2) u) v _ hv
+    (fun e he => sndRowsD_pos zero eps top hze dist argsort N draw1 draw2 u e he) hsnd
+  have huni : ((v : Int), w') ∈ (uniRowsD zero eps top dist argsort N draw1 draw2).row u := by
+    rw [uniRowsD_row]
+    simp only [hu, ↓reduceIte, dropDiag, List.mem_filter, hw', decide_eq_true_eq, true_and]
+    omega
+  have hnz : ∀ e ∈ (uniRowsD zero eps top dist argsort N draw1 draw2).row u, isZero zero e.2 = false := by
+    intro e he
+    rw [uniRowsD_row] at he
+    simp only [hu, ↓reduceIte, dropDiag, List.mem_filter] at he
+    exact (unionRow_mem _ _ _ _ _ he.1).2.1
+  have hfin : (finalRowsD zero eps top dist argsort m N draw1 draw2).row u =
+      elimZeros zero (degreePrune zero m ((uniRowsD zero eps top dist argsort N draw1 draw2).row u)) := by
+    rw [finalRowsD_row]; simp [hu]
+  refine ⟨w', huni, ?_, ?_⟩
+  · obtain ⟨e, he, hmin⟩ := exists_min_len _ (List.ne_nil_of_mem huni)
+    refine ⟨e, ?_, hmin⟩
+    rw [hfin]
+    apply prune_mem_of_le zero m _ e he (hnz e he)
+    intro cut hc
+    obtain ⟨e', he', h⟩ := List.mem_map.mp (cutValue_mem m _ cut hc)
+    rw [← h]; exact hmin e' he'
+  · by_cases hk : ((v : Int), w') ∈ (finalRowsD zero eps top dist argsort m N draw1 draw2).row u
+    · exact Or.inl ((searchGraphD_mem _ _ _ _ _ _ _ _ _ _ _).mpr ⟨hu, w', hk⟩)
+    · right
+      rw [hfin] at hk ⊢
+      exact prune_removed_count zero m hm _ hnz _ huni hk
+
+/-! ## the hypotheses on `argsort` are satisfiable -/
+
+/-- an insertion-sort based argsort is an ascending arrangement of all positions, whenever the
+comparison is total, transitive and refines the order of the values -/
+theorem argsortBy_ok (le : P × Nat → P × Nat → Bool)
+    (trans : ∀ a b c, le a b = true → le b c = true → le a c = true)
+    (total : ∀ a b, le a b = true ∨ le b a = true)
+    (hle : ∀ a b, le a b = true → a.1 ≤ b.1) (lens : List P) :
+    (∀ i ∈ (isort le lens.zipIdx).map (·.2), i < lens.length) ∧
+    ((isort le lens.zipIdx).map (·.2)).Nodup ∧
+    ((isort le lens.zipIdx).map (·.2)).Pairwise
+      (fun a b => ∀ p q, lens[a]? = some p → lens[b]? = some q → p ≤ q) := by
+  have hmem : ∀ a ∈ isort le lens.zipIdx, lens[a.2]? = some a.1 := by
+    intro a ha
+    have := (mem_isort le _ a).mp ha
+    exact List.mem_zipIdx_iff_getElem?.mp this
+  refine ⟨?_, ?_, ?_⟩
+  · intro i hi
+    obtain ⟨a, ha, rfl⟩ := List.mem_map.mp hi
+    have := hmem a ha
+    by_contra hlt
+    rw [List.getElem?_eq_none (by omega)] at this
+    cases this
+  · have hp : ((isort le lens.zipIdx).map (·.2)).Perm (lens.zipIdx.map (·.2)) := (isort_perm le _).map _
+    rw [hp.nodup_iff]
+    have : lens.zipIdx.map (·.2) = List.range' 0 lens.length := by
+      simp [List.zipIdx_map_snd 0 lens]
+    rw [this]; exact List.nodup_range'
+  · rw [List.pairwise_map]
+    apply List.Pairwise.imp_of_mem _ (isort_pairwise le trans total lens.zipIdx)
+    intro a b ha hb hab p q hp hq
+    rw [hmem a ha] at hp; rw [hmem b hb] at hq
+    cases hp; cases hq
+    exact hle a b hab
+
+/-- the hypotheses the theorems put on `argsort` (every position once, ascending values) -/
+def ArgsortOk (argsort : List P → List Nat) : Prop :=
+  (∀ lens, ∀ i ∈ argsort lens, i < lens.length) ∧ (∀ lens, (argsort lens).Nodup) ∧
+  (∀ lens, (argsort lens).Pairwise (fun a b => ∀ p q, lens[a]? = some p → lens[b]? = some q → p ≤ q))
+
+theorem stableArgsort_ok : ArgsortOk (stableArgsort (P := P)) := by
+  have h := fun lens : List P => argsortBy_ok (fun a b : P × Nat => decide (a.1 ≤ b.1))
+    (by intro a b c; simp only [decide_eq_true_eq]; exact le_trans)
+    (by intro a b; simp only [decide_eq_true_eq]; exact le_total _ _)
+    (by intro a b; simp only [decide_eq_true_eq]; exact id) lens
+  exact ⟨fun lens => (h lens).1, fun lens => (h lens).2.1, fun lens => (h lens).2.2⟩
+
+theorem revStableArgsort_ok : ArgsortOk (revStableArgsort (P := P)) := by
+  have h := fun lens : List P => argsortBy_ok
+    (fun a b : P × Nat => decide (a.1 < b.1 ∨ (a.1 ≤ b.1 ∧ b.2 ≤ a.2)))
+    (by
+      intro a b c; simp only [decide_eq_true_eq]
+      rintro (h1 | ⟨h1, h1'⟩) (h2 | ⟨h2, h2'⟩)
+      · exact Or.inl (lt_trans h1 h2)
+      · exact Or.inl (lt_of_lt_of_le h1 h2)
+      · exact Or.inl (lt_of_le_of_lt h1 h2)
+      · exact Or.inr ⟨le_trans h1 h2, Nat.le_trans h2' h1'⟩)
+    (by
+      intro a b; simp only [decide_eq_true_eq]
+      rcases lt_trichotomy a.1 b.1 with h | h | h
+      · exact Or.inl (Or.inl h)
+      · rcases Nat.le_total b.2 a.2 with h' | h'
+        · exact Or.inl (Or.inr ⟨le_of_eq h, h'⟩)
+        · exact Or.inr (Or.inr ⟨le_of_eq h.symm, h'⟩)
+      · exact Or.inr (Or.inl h))
+    (by
+      intro a b; simp only [decide_eq_true_eq]
+      rintro (h | ⟨h, _⟩)
+      · exact le_of_lt h
+      · exact h) lens
+  exact ⟨fun lens => (h lens).1, fun lens => (h lens).2.1, fun lens => (h lens).2.2⟩
 
 end Pynn.Div
